@@ -16,9 +16,12 @@ PROPS = {
         drive=dict(family="bridge", nrand=dict(quick=20, thorough=300), timeout=3600),
         trace=dict(tla="BridgeVerify_Trace.tla", cfg="BridgeVerify_Trace_C12.cfg", steps_per_line=1, timeout=3000),
         rule="one script = one chain: 1-4 validators (secp256k1 consensus keys), a chain id of 1..17 bytes, blocks with "
-             "scripted header time (seconds and nanoseconds, incl. 0 ns), commit round (0,1,2,300), proposer, app version, "
-             "evidence hash, oversized junk tx (multi-part block), per-validator precommit flag (commit/absent/nil, > 2/3 power "
-             "on the block) and vote timestamp; blocks carry real MsgRequestData (three oracle scripts, empty/non-empty client id "
+             "scripted header time (seconds and nanoseconds, incl. 0 ns), commit round (0,1,2,300), proposer, block/app version, "
+             "evidence hash, consensus-params variant, undecodable tx (small: non-trivial DataHash / next LastResultsHash; large: multi-part "
+             "block), validator set of the NEXT height (members re-weighted, removed, re-added: NextValidatorsHash != ValidatorsHash; "
+             "each commit signed by the set of its own height and accepted by VerifyCommit), per-validator precommit flag "
+             "(commit/absent/nil, > 2/3 power on the block) and vote timestamp; before every other proof request two `rich` blocks make "
+             "all hash-valued header fields pairwise different and the proof is taken at that tip (driver_stats counts them); blocks carry real MsgRequestData (three oracle scripts, empty/non-empty client id "
              "and calldata) reported and resolved in the next block, some left unresolved; every seventh chain runs past height "
              "128. -nrand counts proof requests (5 per chain): single result, request count, multi-result, at the tip or at an "
              "earlier committed height, plus inputs without a proof (unknown/unresolved id, height beyond the tip or <= 2). "
@@ -38,7 +41,8 @@ PROPS = {
             "source is not in the repository); its length guards on prefix/suffix/timestamp are included as `voteFormat`",
             "values above 2^30 (versions, sizes, ids) / 2^31 (times) are outside TLC's integers: heights stay below 200, "
             "times are real Unix seconds around 1.7e9",
-            "validator-set changes are not driven (one fixed set per chain)",
+            "the consensus validator set per height is scripted by the harness (re-weighting / removing / re-adding the chain's "
+            "validators), not derived from the application's ValidatorUpdates (the staking set of the app stays fixed)",
         ],
         min_interesting=2,
     ),
